@@ -26,7 +26,8 @@ import (
 //   serve    one request through the real API handler (router, security, validation, handler, Respond) of a
 //            one-operation description, with instrumented producers and an instrumented error responder
 //   direct   Context.Respond called directly (nil route / route without operation / produces argument different
-//            from the route's / a response format already stored in the request / a failed basic-auth marker)
+//            from the route's / a response format already stored in the request / a basic authenticator that examined
+//            the request first: the marker it leaves is compared with the model's and decides the challenge)
 
 type c08In struct {
 	Kind     string `json:"kind"`               // serve | direct
@@ -83,7 +84,10 @@ func (c08) Rule() string {
 	return "exhaustive matrix {HEAD,GET,POST} x declared codes {200,201,204,default-only,several,non-2xx+2xx,none} x handler outcomes " +
 		"{value,nil,errorResp(0/404),NotImplemented,custom Responder,error(coded/plain/composite)} x produces shapes (empty, with parameters, several, default included) x {no Accept, Accept}; " +
 		"random: produces lists with parameters/case variants/duplicates, default producer json/none/custom, registrations complete/partial/raw, Accept headers from a range grammar, " +
-		"basic auth with realms (quotes, backslashes, empty) x attempts; direct Respond calls with nil route, route without operation, foreign produces argument, pre-stored format, realm marker. " +
+		"basic auth: the four authenticator constructors (BasicAuthRealm, BasicAuthRealmCtx, BasicAuth, BasicAuthCtx) x realms (quotes, backslashes, empty) x credentials " +
+		"{no header, empty header, refused, accepted, Basic scheme without usable credentials (scheme only, not base64, no colon, bad padding, stray characters), other schemes (Bearer, Digest, ...), " +
+		"usable credentials in unusual dress (scheme case, empty user or password)} - exhaustively over a fixed table and randomly, through the handler and through a direct Respond after the authenticator ran " +
+		"(what a header yields is net/http's Request.BasicAuth, consulted per case); direct Respond calls with nil route, route without operation, foreign produces argument, pre-stored format, realm marker. " +
 		"Non-trivial: the answer is produced by Respond with at least two offers, or a body is written, or an error/406/401 path is taken with a negotiated type."
 }
 
@@ -380,21 +384,14 @@ func (c08) Run(inAny any) any {
 
 		if in.Kind == "serve" {
 			if in.Auth == "basic" {
-				switch in.Attempt {
-				case "bad":
-					req.SetBasicAuth("u", "bad")
-				case "good":
-					req.SetBasicAuth("u", "good")
-				}
+				c08SetAuth(req, in)
 			}
 			h.ServeHTTP(rw, req)
 			return
 		}
 		// direct
-		if len(in.Realm) > 0 || in.Attempt != "" {
-			if in.Attempt == "bad" || in.Attempt == "good" {
-				req.SetBasicAuth("u", in.Attempt)
-			}
+		if c08DirectAuth(in) {
+			c08SetAuth(req, in)
 			_, _, _ = c08Authenticator(in).Authenticate(req)
 		}
 		obs.Marker = Bs(security.FailedBasicAuth(req))
